@@ -5,6 +5,8 @@ package rig
 
 import (
 	"bytes"
+	"crypto/sha256"
+	"encoding/binary"
 	"fmt"
 	"io"
 	"net/http"
@@ -22,6 +24,7 @@ import (
 	"github.com/bitcoin-sv/block-headers-service/domains"
 	"github.com/bitcoin-sv/block-headers-service/internal/chaincfg"
 	"github.com/bitcoin-sv/block-headers-service/internal/chaincfg/chainhash"
+	"github.com/bitcoin-sv/block-headers-service/internal/wire"
 	"github.com/bitcoin-sv/block-headers-service/repository"
 	"github.com/bitcoin-sv/block-headers-service/service"
 	"github.com/bitcoin-sv/block-headers-service/transports/http/endpoints"
@@ -147,6 +150,27 @@ func (s *Stack) open() error {
 	return nil
 }
 
+// Sibling builds a second set of services and a gin engine over the SAME database handle and repositories, with a
+// modified configuration (the way the production binary would have been started with another config). The sibling
+// must not be used after the parent was restarted or closed.
+func (s *Stack) Sibling(mut func(*config.AppConfig)) *Stack {
+	cfg := NewConfig(s.Path)
+	if s.Opt.Config != nil {
+		s.Opt.Config(cfg)
+	}
+	if mut != nil {
+		mut(cfg)
+	}
+	sb := &Stack{Opt: s.Opt, Path: s.Path, Cfg: cfg, DB: s.DB, Repos: s.Repos, Log: s.Log}
+	sb.Svc = service.NewServices(service.Dept{Repositories: s.Repos, Peers: s.Opt.Peers, AdminToken: cfg.HTTP.AuthToken, Logger: &sb.Log, Config: cfg})
+	if !s.Opt.NoHTTP {
+		srv := httpserver.NewHTTPServer(cfg.HTTP, &sb.Log)
+		srv.ApplyConfiguration(endpoints.SetupRoutes(sb.Svc, cfg.HTTP))
+		srv.ApplyConfiguration(func(e *gin.Engine) { sb.Engine = e })
+	}
+	return sb
+}
+
 // Close closes the database handle (no other clean-up, like a process exit).
 func (s *Stack) Close() {
 	if s.DB != nil {
@@ -231,6 +255,54 @@ func (s *Stack) Add(h refmodel.Hdr) (res AddResult) {
 		}
 	}()
 	res.Header, res.Err = s.Svc.Chains.Add(Source(h))
+	return
+}
+
+// HeadersFrame builds, independently of the wire encoder, the bytes of a mainnet `headers` message carrying the given
+// headers (24-byte message header, count varint, 80 bytes + zero tx count per header).
+func HeadersFrame(hs []refmodel.Hdr) []byte {
+	var payload []byte
+	n := len(hs)
+	switch {
+	case n < 0xfd:
+		payload = append(payload, byte(n))
+	default:
+		payload = append(payload, 0xfd, byte(n), byte(n>>8))
+	}
+	for _, h := range hs {
+		payload = append(payload, h.Bytes()...)
+		payload = append(payload, 0)
+	}
+	frame := make([]byte, 24, 24+len(payload))
+	binary.LittleEndian.PutUint32(frame[0:], uint32(wire.MainNet))
+	copy(frame[4:16], "headers")
+	binary.LittleEndian.PutUint32(frame[16:], uint32(len(payload)))
+	a := sha256.Sum256(payload)
+	b := sha256.Sum256(a[:])
+	copy(frame[20:24], b[:4])
+	return append(frame, payload...)
+}
+
+// AddViaWire submits the header the way a peer delivers it: the bytes of a `headers` message are decoded by the real
+// wire codec and the decoded header is converted exactly as the sync engines do before Chains.Add.
+func (s *Stack) AddViaWire(h refmodel.Hdr) (res AddResult) {
+	defer func() {
+		if p := recover(); p != nil {
+			res.Panic = p
+			res.Stack = string(debug.Stack())
+		}
+	}()
+	msg, _, err := wire.ReadMessage(bytes.NewReader(HeadersFrame([]refmodel.Hdr{h})), 70013, wire.MainNet)
+	if err != nil {
+		res.Err = fmt.Errorf("wire decode of a well-formed headers frame failed: %w", err)
+		return
+	}
+	mh, ok := msg.(*wire.MsgHeaders)
+	if !ok || len(mh.Headers) != 1 {
+		res.Err = fmt.Errorf("wire decode of a headers frame returned %T", msg)
+		return
+	}
+	res.Header, res.Err = s.Svc.Chains.Add(domains.BlockHeaderSource(*mh.Headers[0]))
 	return
 }
 
